@@ -380,7 +380,8 @@ class Ctx:
                 obligations=max(obligations, 0), discharged=max(discharged, 0),
                 checker_cmd=f'cd lean && lake build ShelxProps.{self.prop} driver && lake env lean Audit_{self.prop}.lean  (generated: #print axioms over every theorem of ShelxProps.{self.prop})',
                 trusted_base=['Lean 4.33.0 kernel', 'axioms: ' + ', '.join(sorted({a for v in self.theorems.values() for a in v}) or ['none']),
-                              'extract/extract.py (translator of table-like code)',
+                              'extract/extract.py + tables_*.py (ast translator of table-like code)',
+                              'extract/symtrace.py + trace_*.py (tracing translator: arithmetic code executed on symbolic numbers)',
                               'harness correspondence check (sampled; see evaluations/rule)',
                               'CPython, libm (modelled, validated by the stream only)'],
                 theorems=sorted(self.theorems), correspondence_streams=self.streams,
